@@ -147,6 +147,9 @@ class MergeStream(Stream):
             m2 = merge_requirements(rb, ra)
             if (normalize_project_name(m2.name), set(m2.specifier), set(m2.extras)) != (normalize_project_name(m.name), set(m.specifier), set(m.extras)):
                 fails.append(("C17/not-commutative" + self._sig_suffix(ra, rb), {"ab": str(m), "ba": str(m2)}))
+            elif (str(m2.marker) if m2.marker else None) != (str(m.marker) if m.marker else None):
+                # the marker says where the merged requirement applies: it is part of what "the same requirement" means
+                fails.append(("C17/not-commutative/marker", {"ab": str(m), "ba": str(m2)}))
         except Exception as ex:
             fails.append(("C17/not-commutative-raises", repr(ex)))
         return fails
